@@ -103,7 +103,10 @@ def python_abi_oracle(admits, impl, gil, py, abi, grid):
             return "skip"
         return (X, Y, 1) if exists(lambda v: (v[0], v[1]) >= (X, Y)) else None
     if abin != "none":
-        if not abin.startswith(py.lower()):
+        # "a concrete cpXY[t] ABI must match the python tag": the tag itself plus ABI flag letters only
+        # (cp31 does not match cp312)
+        rest = abin[len(py) :]
+        if not abin.startswith(py.lower()) or (rest and not rest.isalpha()):
             return None
         if impl is not None and abin.endswith("t") != gil:
             return None
